@@ -64,6 +64,15 @@ impl Bases {
         let _ = fs::remove_dir_all(&b2);
         fs::create_dir_all(&b1).expect("create base 1");
         fs::create_dir_all(&b2).expect("create base 2");
+        {
+            use std::os::unix::fs::MetadataExt;
+            let d1 = fs::metadata(&b1).expect("stat base 1").dev();
+            let d2 = fs::metadata(&b2).expect("stat base 2").dev();
+            if d1 == d2 {
+                eprintln!("replay_walk: {} and {} are on the same device", b1.display(), b2.display());
+                std::process::exit(2);
+            }
+        }
         Bases { b1, b2 }
     }
     fn rel(&self, p: &Path) -> String {
